@@ -10,14 +10,15 @@ Variable rules : key -> rule.
 Variable env : key -> N.
 Variable F : key -> N -> list value -> list N -> N -> N.
 Variable rank : key -> nat.
+Variable R : key -> N -> rule.
 Hypothesis Hrank : wf_rank rules rank.
 Hypothesis Hdisc : forall k, r_disc (rules k) = [].
 Notation cvK := (cvK rules env F rank).
 Notation task_ok2 := (task_ok2 rules env F rank).
 Notation BT := (BT rules env F rank).
-Notation BC := (BC rules F).
-Notation BS := (BS rules env F rank).
-Notation BInv := (BInv rules env F rank).
+Notation BC := (BC rules F R).
+Notation BS := (BS rules env F rank R).
+Notation BInv := (BInv rules env F rank R).
 
 (* ---------- outstanding requests under changes of the task table ---------- *)
 Lemma Oreq2_sub s s' : (forall rq, Unrouted s rq -> Unrouted s' rq) -> incl (is_fininreq s) (is_fininreq s') ->
@@ -159,16 +160,15 @@ Proof.
     + destruct T7 as [H|[(k & H)|[H|H]]]; [left; now rewrite Ei|right; left; exists k; now rewrite (proj1 (HP k))| |right; right; right; now apply Hcurk].
       right. right. left. destruct (N.eq_dec root t) as [->|E]; [apply Hip|]. unfold is_in_progress in *. now destruct (RO root E) as [_ ->].
   - (* stored results *)
-    apply (BC_change rules F (fun k => N.eqb k t) s s'); auto.
+    apply (BC_change rules F R (fun k => N.eqb k t) s s'); auto.
     + intros k. rewrite (proj2 (proj2 (HP k))). apply HC.
     + intros k E. apply N.eqb_neq in E. now apply RO.
-    + intros k E. apply N.eqb_eq in E. subst k. destruct Hip as [I1 I2]. split; [now apply in_progress_unsettled|]. split; [exact I2|]. split.
-      * unfold bAt. destruct RT as [-> _]. unfold r'. apply completed_result_built.
-      * intros _. destruct RT as [-> _]. unfold r'. apply completed_result_sig.
+    + intros k E. apply N.eqb_eq in E. subst k. destruct Hip as [I1 I2]. split; [now apply in_progress_unsettled|]. split; [exact I2|].
+      unfold bAt. destruct RT as [-> _]. unfold r'. apply completed_result_built.
     + intros k E. apply N.eqb_eq in E. subst k. unfold stored, cAt. destruct RT as [-> _]. unfold r'. apply completed_result_cases.
     + intros y (rq & Hu' & H1' & H2'). left. exists rq. split; auto. apply (Unrouted_same s s' Ei (fun k => proj1 (HP k))). exact Hu'.
   - (* scanning *)
-    apply (BS_change rules env F rank (fun k => N.eqb k t) x s s'); auto.
+    apply (BS_change rules env F R rank (fun k => N.eqb k t) x s s'); auto.
     + intros k E. apply N.eqb_neq in E. now apply RO.
     + intros k E. apply N.eqb_eq in E. subst k. split; [apply in_progress_unsettled|]; apply Hip.
     + intros rq [H|[(k & H)|(t0 & z & Hz & H)]]; [left; now rewrite <- Ets|right; left; exists k; now rewrite <- (proj1 (proj2 (HP k)))|].
@@ -279,13 +279,12 @@ Proof.
         -- rewrite HR. exact K11.
     + destruct T7 as [H|[(k & H)|[H|H]]]; [now left|right; left; exists k; now rewrite (proj1 (HP k))| |right; right; right; now apply Hcurk].
       right. right. left. unfold is_in_progress in *. rewrite HK. destruct (N.eqb root t); auto.
-  - apply (BC_change rules F (fun k => N.eqb k t) s s'); auto.
+  - apply (BC_change rules F R (fun k => N.eqb k t) s s'); auto.
     + intros k. rewrite (proj2 (proj2 (HP k))). apply HC.
-    + intros k E. apply N.eqb_eq in E. subst k. destruct Hip as [I1 I2]. split; [now apply in_progress_unsettled|]. split; [exact I2|]. unfold bAt. rewrite HR. split; [reflexivity|].
-      intros Hb. now apply (b_sig _ _ _ HC).
+    + intros k E. apply N.eqb_eq in E. subst k. destruct Hip as [I1 I2]. split; [now apply in_progress_unsettled|]. split; [exact I2|]. unfold bAt. rewrite HR. reflexivity.
     + intros k E. left. unfold cAt. now rewrite Hst, HR.
     + intros y (rq & Hu' & H1' & H2'). left. exists rq. split; auto. apply (Unrouted_same s s' eq_refl (fun k => proj1 (HP k))). exact Hu'.
-  - apply (BS_change rules env F rank (fun k => N.eqb k t) x s s'); auto.
+  - apply (BS_change rules env F R rank (fun k => N.eqb k t) x s s'); auto.
     + intros k E. apply N.eqb_eq in E. subst k. split; [apply in_progress_unsettled|]; apply Hip.
     + intros rq [H|[(k & H)|(t0 & z & Hz & H)]]; [now left|right; left; exists k; now rewrite <- (proj1 (proj2 (HP k)))|].
       right. right. rewrite TK in Hz. destruct (N.eqb t0 t) eqn:E; [|eauto]. apply N.eqb_eq in E. subst t0. inversion Hz. subst z. exists t, ti. auto.
@@ -322,9 +321,9 @@ Proof.
       * rewrite Hft. exact K10.
       * rewrite Hft, HRes. exact K11.
     + rewrite Hi, (in_progress_of_kind s s' root (HK root)). destruct T7 as [H|[(k & H)|[H|H]]]; auto; [right; left; exists k; now rewrite HR|right; right; right; now apply Hcurk].
-  - apply (BC_change rules F (fun _ => false) s s'); auto; try discriminate; [intros k; rewrite HR; apply HC|].
+  - apply (BC_change rules F R (fun _ => false) s s'); auto; try discriminate; [intros k; rewrite HR; apply HC|].
     intros y (rq & Hu' & H1' & H2'). left. exists rq. split; auto. now apply HU.
-  - apply (BS_change rules env F rank (fun _ => false) x s s'); auto; try discriminate.
+  - apply (BS_change rules env F R rank (fun _ => false) x s s'); auto; try discriminate.
     + intros rq [H|[(k & H)|(t0 & z & Hz & H)]]; [left; congruence|right; left; exists k; now rewrite <- HR|right; right; exists t0, z; now rewrite <- Htk].
     + intros k _. now rewrite HR.
     + intros k _ [(rq & H1 & H2)|(rq & H1 & H2)]; [left; exists rq; now rewrite Hts|right; exists rq; now rewrite Hi].
